@@ -1,9 +1,23 @@
-(* CorePhase2AcctKt.v -- kernel operations on other descriptors leave a given descriptor t
-   (the timer descriptor) and its epoll entries alone.  Virtual-kernel level only. *)
+(* CorePhase2K1Base.v -- base of the kernel-timer invariant family (CorePhase2K1*.v):
+   results of model functions, and "kernel operations on other descriptors leave a given
+   descriptor t (the timer descriptor) and its epoll entries alone" (virtual-kernel level). *)
 From Coq Require Import List ZArith Bool Lia.
 From Ivv Require Import Core.Kernel Core.CoreTypes Core.CoreFd Core.CoreModel Core.CoreRelBase.
 Import ListNotations.
 Local Open Scope Z_scope.
+
+Ltac dm := match goal with
+  | |- context [match ?x with _ => _ end] => destruct x eqn:?
+  end.
+
+(* results: a property of the continuing state; halted runs are handled by the trace lemmas *)
+Definition ARes (P : core -> Prop) (r : res) : Prop := match r with R s' => P s' | Halt _ => True end.
+
+Lemma ARes_bind : forall (P Q : core -> Prop) r f, ARes P r -> (forall s1, P s1 -> ARes Q (f s1)) -> ARes Q (bind r f).
+Proof. intros P Q r f H K. destruct r as [s1|s1]; cbn [bind ARes] in *; [apply K; exact H|exact I]. Qed.
+
+Lemma ARes_imp : forall (P Q : core -> Prop) r, ARes P r -> (forall s1, P s1 -> Q s1) -> ARes Q r.
+Proof. intros P Q r H K. destruct r; cbn [ARes] in *; auto. Qed.
 
 (* the fields of a timer descriptor that matter *)
 Definition vsame (v' v : vfd) : Prop :=
